@@ -379,4 +379,260 @@ theorem leafOfData_eq_toLeaf {L : Type} (dim : L → Nat) (legs : List L) (data 
   simp only [leafOfData, ravel_eq_some dim σ legs h]
   rfl
 
+/-! ### whole contraction programs on arrays -/
+
+/-- a contraction program on arrays: the leaves carry an array and the labels of its axes -/
+inductive Prog (L α : Type) where
+  | leaf (legs : List L) (A : Arr α)
+  | dot (p q : Prog L α) (pairs : List (L × L))
+
+namespace Prog
+
+/-- the expression of the network semantics the program denotes -/
+def expr : Prog L α → Expr L α
+  | leaf legs A => Expr.leaf legs (A.toLeaf legs)
+  | dot p q ps => Expr.dot p.expr q.expr ps
+
+/-- running the program with `numpy.tensordot`: the axes of a call are the positions of the pair labels among
+    the legs of the two operands (`fa.index(x)`); `none` = NumPy raises somewhere -/
+def run : Prog L α → Option (Arr α)
+  | leaf _ A => some A
+  | dot p q ps =>
+    match p.run, q.run with
+    | some A, some B =>
+      arrTensordot A B (ps.map (fun pr => p.expr.free.idxOf pr.1)) (ps.map (fun pr => q.expr.free.idxOf pr.2))
+    | _, _ => none
+
+/-- the arrays have the dimensions of their labels, bound legs have equal dimensions -/
+def Dims (dim : L → Nat) : Prog L α → Prop
+  | leaf legs A => A.shape = legs.map dim
+  | dot p q ps => p.Dims dim ∧ q.Dims dim ∧ ∀ pr ∈ ps, dim pr.1 = dim pr.2
+
+end Prog
+
+theorem Expr.free_nodup (e : Expr L α) (h : e.SWF) : e.free.Nodup := by
+  induction e with
+  | leaf legs v => exact h.1
+  | dot a b ps iha ihb =>
+    obtain ⟨ha, hb, hdis, _, _, _⟩ := h
+    simp only [Expr.free]
+    rw [List.nodup_append]
+    refine ⟨(iha ha).filter _, (ihb hb).filter _, ?_⟩
+    intro x hx y hy hxy
+    subst hxy
+    exact hdis x (Expr.free_sub_labels a x (List.mem_filter.1 hx).1)
+      (Expr.free_sub_labels b x (List.mem_filter.1 hy).1)
+
+theorem validIdx_map_map_elim (xs : List L) (d g : L → Nat) (h : ValidIdx (xs.map d) (xs.map g)) :
+    ∀ x ∈ xs, g x < d x := by
+  induction xs with
+  | nil => simp
+  | cons x xs ih =>
+    intro y hy
+    rcases List.mem_cons.1 hy with rfl | hy
+    · exact h.1
+    · exact ih h.2 y hy
+
+theorem map_getD_range [Inhabited L] (fa : List L) :
+    (List.range fa.length).map (fun x => fa.getD x default) = fa := by
+  apply List.ext_getElem
+  · simp
+  · intro i h1 h2
+    simp [List.getD_eq_getElem?_getD, h2]
+
+theorem getD_idxOf [Inhabited L] (fa : List L) (l : L) (h : l ∈ fa) : fa.getD (fa.idxOf l) default = l := by
+  have hlt := List.idxOf_lt_length_of_mem h
+  rw [List.getD_eq_getElem?_getD, List.getElem?_eq_getElem hlt]
+  simp [List.getElem_idxOf]
+
+theorem dimAt_map_idxOf (dim : L → Nat) (fa : List L) (l : L) (h : l ∈ fa) :
+    dimAt (fa.map dim) (fa.idxOf l) = dim l := by
+  have hlt := List.idxOf_lt_length_of_mem h
+  simp [dimAt, List.getD_eq_getElem?_getD, hlt, List.getElem_idxOf]
+
+theorem zip_map_fst_snd (ps : List (L × L)) : List.zip (ps.map Prod.fst) (ps.map Prod.snd) = ps :=
+  (List.zip_of_prod rfl rfl).symm
+
+/-- **Programs of `numpy.tensordot` calls compute `Expr.eval`.**  For every strongly well-formed contraction
+    program on arrays whose arrays have the dimensions of their labels and whose bound legs have equal dimensions:
+    running it with `arrTensordot` (axes = positions of the pair labels among the operands' legs) succeeds, the
+    result has the dimensions of the free legs in NumPy's order, and read through the free legs it is the value
+    `Expr.eval` of the denoted expression at every assignment within the dimensions of the free legs. -/
+theorem Prog.run_eq_eval [Inhabited L] (dim : L → Nat) (p : Prog L α) (hswf : p.expr.SWF) (hdim : p.Dims dim) :
+    ∃ C, p.run = some C ∧ C.shape = p.expr.free.map dim ∧
+      ∀ σ : Asg L, (∀ l ∈ p.expr.free, σ l < dim l) → C.toLeaf p.expr.free σ = p.expr.eval dim σ := by
+  induction p with
+  | leaf legs A => exact ⟨A, rfl, hdim, fun σ _ => rfl⟩
+  | dot p q ps ihp ihq =>
+    obtain ⟨hp, hq, hdis, hps, hn1, hn2⟩ := hswf
+    obtain ⟨hdp, hdq, hpd⟩ := hdim
+    obtain ⟨Ca, hCa, hsa, hva⟩ := ihp hp hdp
+    obtain ⟨Cb, hCb, hsb, hvb⟩ := ihq hq hdq
+    have hfa := Expr.free_nodup p.expr hp
+    have hfb := Expr.free_nodup q.expr hq
+    have hna : Ca.shape.length = p.expr.free.length := by rw [hsa]; simp
+    have hnb : Cb.shape.length = q.expr.free.length := by rw [hsb]; simp
+    -- the request
+    have hia : (ps.map (fun pr => p.expr.free.idxOf pr.1)).Nodup := by
+      have : ps.map (fun pr => p.expr.free.idxOf pr.1) = (ps.map Prod.fst).map p.expr.free.idxOf := by
+        rw [List.map_map]; rfl
+      rw [this]
+      apply List.Nodup.map_on _ hn1
+      intro x hx y hy hxy
+      obtain ⟨pr, hpr, rfl⟩ := List.mem_map.1 hx
+      obtain ⟨pr', hpr', rfl⟩ := List.mem_map.1 hy
+      rw [← getD_idxOf p.expr.free pr.1 (hps pr hpr).1, ← getD_idxOf p.expr.free pr'.1 (hps pr' hpr').1, hxy]
+    have hib : (ps.map (fun pr => q.expr.free.idxOf pr.2)).Nodup := by
+      have : ps.map (fun pr => q.expr.free.idxOf pr.2) = (ps.map Prod.snd).map q.expr.free.idxOf := by
+        rw [List.map_map]; rfl
+      rw [this]
+      apply List.Nodup.map_on _ hn2
+      intro x hx y hy hxy
+      obtain ⟨pr, hpr, rfl⟩ := List.mem_map.1 hx
+      obtain ⟨pr', hpr', rfl⟩ := List.mem_map.1 hy
+      rw [← getD_idxOf q.expr.free pr.2 (hps pr hpr).2, ← getD_idxOf q.expr.free pr'.2 (hps pr' hpr').2, hxy]
+    have hlta : ∀ x ∈ ps.map (fun pr => p.expr.free.idxOf pr.1), x < Ca.shape.length := by
+      intro x hx
+      obtain ⟨pr, hpr, rfl⟩ := List.mem_map.1 hx
+      rw [hna]; exact List.idxOf_lt_length_of_mem (hps pr hpr).1
+    have hltb : ∀ x ∈ ps.map (fun pr => q.expr.free.idxOf pr.2), x < Cb.shape.length := by
+      intro x hx
+      obtain ⟨pr, hpr, rfl⟩ := List.mem_map.1 hx
+      rw [hnb]; exact List.idxOf_lt_length_of_mem (hps pr hpr).2
+    have hd : (ps.map (fun pr => p.expr.free.idxOf pr.1)).map (dimAt Ca.shape) =
+        (ps.map (fun pr => q.expr.free.idxOf pr.2)).map (dimAt Cb.shape) := by
+      rw [List.map_map, List.map_map]
+      apply List.map_congr_left
+      intro pr hpr
+      simp only [Function.comp, hsa, hsb]
+      rw [dimAt_map_idxOf dim _ _ (hps pr hpr).1, dimAt_map_idxOf dim _ _ (hps pr hpr).2]
+      exact hpd pr hpr
+    have hLa : Labelling dim Ca.shape (fun x => p.expr.free.getD x default) := by
+      constructor
+      · intro x hx
+        rw [hna] at hx
+        simp [hsa, dimAt, List.getD_eq_getElem?_getD, hx]
+      · intro x y hx hy hxy
+        rw [hna] at hx hy
+        simp only [List.getD_eq_getElem?_getD, List.getElem?_eq_getElem hx, List.getElem?_eq_getElem hy,
+          Option.getD_some] at hxy
+        exact (hfa.getElem_inj_iff).1 hxy
+    have hLb : Labelling dim Cb.shape (fun y => q.expr.free.getD y default) := by
+      constructor
+      · intro x hx
+        rw [hnb] at hx
+        simp [hsb, dimAt, List.getD_eq_getElem?_getD, hx]
+      · intro x y hx hy hxy
+        rw [hnb] at hx hy
+        simp only [List.getD_eq_getElem?_getD, List.getElem?_eq_getElem hx, List.getElem?_eq_getElem hy,
+          Option.getD_some] at hxy
+        exact (hfb.getElem_inj_iff).1 hxy
+    have hdisj : ∀ x y, x < Ca.shape.length → y < Cb.shape.length →
+        (fun x => p.expr.free.getD x default) x ≠ (fun y => q.expr.free.getD y default) y := by
+      intro x y hx hy hxy
+      rw [hna] at hx
+      rw [hnb] at hy
+      simp only [List.getD_eq_getElem?_getD, List.getElem?_eq_getElem hx, List.getElem?_eq_getElem hy,
+        Option.getD_some] at hxy
+      exact hdis _ (Expr.free_sub_labels p.expr _ (List.getElem_mem hx))
+        (hxy ▸ Expr.free_sub_labels q.expr _ (List.getElem_mem hy))
+    obtain ⟨C, hC, hsh, hval⟩ := arrTensordot_sumPairs dim Ca Cb _ _ _ _ hia hib hlta hltb hd hLa hLb hdisj
+    -- translate back to labels
+    have eA : axisLegs (fun x => p.expr.free.getD x default) Ca.shape.length = p.expr.free := by
+      rw [hna]; exact map_getD_range _
+    have eB : axisLegs (fun y => q.expr.free.getD y default) Cb.shape.length = q.expr.free := by
+      rw [hnb]; exact map_getD_range _
+    have eia : (ps.map (fun pr => p.expr.free.idxOf pr.1)).map (fun x => p.expr.free.getD x default) =
+        ps.map Prod.fst := by
+      rw [List.map_map]
+      apply List.map_congr_left
+      intro pr hpr
+      exact getD_idxOf _ _ (hps pr hpr).1
+    have eib : (ps.map (fun pr => q.expr.free.idxOf pr.2)).map (fun y => q.expr.free.getD y default) =
+        ps.map Prod.snd := by
+      rw [List.map_map]
+      apply List.map_congr_left
+      intro pr hpr
+      exact getD_idxOf _ _ (hps pr hpr).2
+    have efa := filter_axisLegs Ca.shape.length (fun x => p.expr.free.getD x default) _ hLa.inj hlta
+    have efb := filter_axisLegs Cb.shape.length (fun y => q.expr.free.getD y default) _ hLb.inj hltb
+    rw [eA, eia] at efa
+    rw [eB, eib] at efb
+    have hfree : (Prog.dot p q ps).expr.free =
+        (notIn Ca.shape.length (ps.map (fun pr => p.expr.free.idxOf pr.1))).map
+            (fun x => p.expr.free.getD x default) ++
+          (notIn Cb.shape.length (ps.map (fun pr => q.expr.free.idxOf pr.2))).map
+            (fun y => q.expr.free.getD y default) := by
+      simp only [Prog.expr, Expr.free]
+      rw [efa, efb]
+    refine ⟨C, ?_, ?_, ?_⟩
+    · simp only [Prog.run, hCa, hCb]
+      exact hC
+    · rw [hfree]; exact hsh
+    · intro σ hσ
+      rw [hfree] at hσ ⊢
+      rw [hval σ hσ, eA, eB, eia, eib, zip_map_fst_snd]
+      show _ = sumPairs dim ps (fun τ => p.expr.eval dim τ * q.expr.eval dim τ) σ
+      rw [sumPairs_eq_sumIdx, sumPairs_eq_sumIdx]
+      apply sumIdx_congr
+      intro ks hks
+      -- the assignments the sum visits are within the dimensions of the operands' free legs
+      have hpl : (Expr.pairLegs ps).Nodup := by
+        simp only [Expr.pairLegs]
+        rw [List.nodup_append]
+        refine ⟨hn1, hn2, ?_⟩
+        intro x hx y hy hxy
+        subst hxy
+        obtain ⟨pr, hpr, rfl⟩ := List.mem_map.1 hx
+        obtain ⟨pr', hpr', hxy⟩ := List.mem_map.1 hy
+        exact hdis _ (Expr.free_sub_labels p.expr _ (hps pr hpr).1)
+          (hxy ▸ Expr.free_sub_labels q.expr _ (hps pr' hpr').2)
+      have hkl : ks.length = ps.length := by rw [validIdx_length _ _ hks]; simp
+      have hk1 := map_updPairs_fst σ ps ks hpl hkl
+      have hk2 := map_updPairs_snd σ ps ks hpl hkl
+      have hv1 : ∀ l ∈ ps.map Prod.fst, updPairs σ ps ks l < dim l := by
+        apply validIdx_map_map_elim
+        rw [hk1]
+        have : (ps.map Prod.fst).map dim = ps.map (fun p => dim p.1) := by rw [List.map_map]; rfl
+        rw [this]; exact hks
+      have hv2 : ∀ l ∈ ps.map Prod.snd, updPairs σ ps ks l < dim l := by
+        apply validIdx_map_map_elim
+        rw [hk2]
+        have : (ps.map Prod.snd).map dim = ps.map (fun p => dim p.1) := by
+          rw [List.map_map]
+          apply List.map_congr_left
+          intro pr hpr
+          exact (hpd pr hpr).symm
+        rw [this]; exact hks
+      have hra : ∀ l ∈ p.expr.free, updPairs σ ps ks l < dim l := by
+        intro l hl
+        by_cases h1 : l ∈ ps.map Prod.fst
+        · exact hv1 l h1
+        · have hnb' : l ∉ Expr.pairLegs ps := by
+            simp only [Expr.pairLegs, List.mem_append, not_or]
+            refine ⟨h1, ?_⟩
+            intro h2
+            obtain ⟨pr, hpr, rfl⟩ := List.mem_map.1 h2
+            exact hdis _ (Expr.free_sub_labels p.expr _ hl) (Expr.free_sub_labels q.expr _ (hps pr hpr).2)
+          rw [updPairs_of_not_mem σ ps ks l hnb']
+          apply hσ
+          rw [← efa]
+          exact List.mem_append.2 (Or.inl (List.mem_filter.2 ⟨hl, by simpa using h1⟩))
+      have hrb : ∀ l ∈ q.expr.free, updPairs σ ps ks l < dim l := by
+        intro l hl
+        by_cases h2 : l ∈ ps.map Prod.snd
+        · exact hv2 l h2
+        · have hnb' : l ∉ Expr.pairLegs ps := by
+            simp only [Expr.pairLegs, List.mem_append, not_or]
+            refine ⟨?_, h2⟩
+            intro h1
+            obtain ⟨pr, hpr, rfl⟩ := List.mem_map.1 h1
+            exact hdis _ (Expr.free_sub_labels p.expr _ (hps pr hpr).1) (Expr.free_sub_labels q.expr _ hl)
+          rw [updPairs_of_not_mem σ ps ks l hnb']
+          apply hσ
+          rw [← efb]
+          exact List.mem_append.2 (Or.inr (List.mem_filter.2 ⟨hl, by simpa using h2⟩))
+      show Ca.toLeaf p.expr.free _ * Cb.toLeaf q.expr.free _ = _
+      rw [hva _ hra, hvb _ hrb]
+
 end Ptn.Ein
